@@ -84,6 +84,15 @@ def obligations_c02(tier):
                                   pre=['0 <= ka <= 1 and 0 <= kb <= 1', f'{lo} <= a0 < {hi} and 0 <= b0 < {nmig}',
                                        '(ka == 1 or a0 == %d) and (kb == 1 or b0 == 0)' % lo], timeout=T, group='migrations',
                                   bound=f'A = recipe {ra} + at most one command (a0 in [{lo},{hi})); B = recipe {rb} + at most one command'))
+    if quick:
+        # the three-level chain (recipe 3: abstract T0 <- T1 <- T2) and the link / annotation recipe (2) against
+        # themselves: a change to the middle type moves the ancestors of its DESCENDANT, whose own bases stay put
+        for r in (6, 5):
+            obs.append(Ob(id=f'migration.A{r}.B{r}.one-sided', module=M, func='migration_reaches_target',
+                          params='ka: int, a0: int, kb: int, b0: int', args=f'{r}, ka, a0, 0, {r}, kb, b0, 0',
+                          pre=['0 <= ka <= 1 and 0 <= kb <= 1 and ka + kb <= 1', f'0 <= a0 < {nmig} and 0 <= b0 < {nmig}',
+                               '(ka == 1 or a0 == 0) and (kb == 1 or b0 == 0)'], timeout=T, group='migrations',
+                          bound=f'A = B = recipe {r} (MIG_RECIPES index), at most one extra command (out of {nmig}) on one side'))
     # known finding F17: un-narrowed instance restricted to a witness family
     obs.append(Ob(id='migration.F17', module=M, func='migration_raw', params='b0: int', args=f'1, 0, 0, 0, 2, 1, b0, 0',
                   pre=[f'0 <= b0 < {nmig}'], timeout=T, group='F17', finding='F17',
